@@ -163,3 +163,22 @@ class Shard:
 def mine(key, k, n):
     """Deterministic assignment of a case to shard k of n (PYTHONHASHSEED=0 is forced by ./run)."""
     return hash(key) % n == k
+
+
+def prime_inspect_cache():
+    """DIP() calls inspect.stack(); for frames whose file cannot be mapped to a module ('<frozen runpy>' of
+    `python -m mc.main`) inspect rescans sys.modules on every call (8 ms instead of 1.5 ms per DIP()).  Register the
+    frames of the current stack in inspect's own cache once.  The library only reads caller.filename/lineno."""
+    import inspect
+    f = sys._getframe()
+    while f is not None:
+        fn = f.f_code.co_filename
+        if fn not in inspect.modulesbyfile:
+            try:
+                inspect.getmodule(f, fn)
+            except Exception:
+                pass
+            name = f.f_globals.get("__name__")
+            if fn not in inspect.modulesbyfile and name in sys.modules:
+                inspect.modulesbyfile[fn] = name
+        f = f.f_back
